@@ -1,0 +1,12 @@
+//go:build verif
+
+// Exports for the verification harness (/verif). Compiled only with -tags verif.
+package proxycore
+
+// VerifSetLBIndex sets the round-robin counter of a load balancer created by
+// NewRoundRobinLoadBalancer (whatever unsigned width the field has).
+func VerifSetLBIndex(lb LoadBalancer, v uint64) {
+	verifSetUint(&lb.(*roundRobinLoadBalancer).index, v)
+}
+
+func verifSetUint[T ~uint32 | ~uint64](p *T, v uint64) { *p = T(v) }
